@@ -2,6 +2,7 @@ import EpModel.Lemmas.DecLax
 import EpModel.Spec.Decode
 /- Refinement of the strict slicing cursor to Spec.decode (C03) with error/fault matching (C07). -/
 namespace EpModel.Lemmas.Refine
+set_option linter.unusedSimpArgs false
 open EpModel EpModel.Dec EpModel.Spec
 
 /-- which crate layers may name a spec unit -/
@@ -892,6 +893,202 @@ theorem ipv6_refines (c : Cur) (g : Mem) (hg : ByteMem g) (o l : Nat) (ctx : Ctx
     cases e
     · exact absurd rfl (hne _)
     all_goals (simp only [Rel, ErrMatch]; exact hrel)
+
+
+/-! ### ARP, MACsec -/
+
+theorem arp_step (g : Mem) (p : Packet) (ctx : Ctx) (o l : Nat) (hc : ctx.off = o) (hs : ctx.stop = o + l) :
+    match arpFromSlice g o l with
+    | .ok w => ∃ c', Spec.step false g p (.ether 0x0806) ctx = ⟨p.setNet (.arp w), .done, c', none⟩
+    | .error e => ∃ f, Spec.step false g p (.ether 0x0806) ctx = ⟨p, .done, ctx, some f⟩ ∧ LenRel e f o ctx.lim := by
+  have hav : ctx.avail = l := by unfold Ctx.avail; omega
+  unfold arpFromSlice
+  simp only [Spec.step, hav, hc, isVlanType]
+  simp only [show ¬ ((0x0806 : Nat) = 0x8100 ∨ (0x0806 : Nat) = 0x88a8 ∨ (0x0806 : Nat) = 0x9100) by omega,
+    decide_false, Bool.false_eq_true, if_false, show ¬ ((0x0806 : Nat) = 0x88e5) by omega, if_true]
+  by_cases h8 : l < 8
+  · simp only [h8, if_true]
+    exact ⟨_, rfl, by lenrel⟩
+  · simp only [h8, if_false]
+    have e : 8 + 2 * g (o + 4) + 2 * g (o + 5) = 8 + g (o + 4) * 2 + g (o + 5) * 2 := by omega
+    rw [e]
+    by_cases hl : l < 8 + g (o + 4) * 2 + g (o + 5) * 2
+    · simp only [hl, if_true]
+      refine ⟨_, rfl, ?_⟩
+      refine ⟨by simp [mkFault], by simp [mkFault, LayerUnit], by simp [mkFault, *], by simp [mkFault, *],
+        by simp [mkFault], ?_⟩
+      right
+      simp [KnownSrcException]
+    · simp only [hl, if_false]
+      exact ⟨{ off := o + (8 + g (o + 4) * 2 + g (o + 5) * 2), stop := ctx.stop, lim := ctx.lim, nExt := ctx.nExt },
+        by simp [setNet_eq]⟩
+
+theorem macsec_unmod_eq (t : Nat) : (macsecUnmodified t = true) ↔ ((t / 8) % 2 = 0 ∧ (t / 4) % 2 = 0) := by
+  unfold macsecUnmodified; simp; omega
+
+theorem macsec_step (g : Mem) (hg : ByteMem g) (p : Packet) (ctx : Ctx) (o l : Nat) (hc : ctx.off = o)
+    (hs : ctx.stop = o + l) (hn : ctx.nExt ≠ 3) :
+    match macsecFromSlice g o l with
+    | .ok (.macsec hdr pl src inc) =>
+      Spec.step false g p (.ether 0x88e5) ctx =
+        ⟨p.pushExt (.macsec hdr pl src inc),
+          (match macsecNextEtherType g o with | some et' => .ether et' | none => .done),
+          { off := pl.o, stop := pl.o + pl.l, lim := inherit ctx.lim src, nExt := ctx.nExt + 1 }, none⟩ ∧
+        pl.o = o + hdr.l ∧ o ≤ pl.o ∧ pl.o + pl.l ≤ o + l ∧
+        ((0 < g (o + 1) % 64) ↔ src = .macsecShortLength) ∧ (src = .slice ∨ src = .macsecShortLength)
+    | .ok _ => False
+    | .error (.len e) =>
+      ∃ f, Spec.step false g p (.ether 0x88e5) ctx = ⟨p, .done, ctx, some f⟩ ∧ LenRel e f o ctx.lim
+    | .error e => ∃ f, Spec.step false g p (.ether 0x88e5) ctx = ⟨p, .done, ctx, some f⟩ ∧ ContentMatch e f := by
+  have hav : ctx.avail = l := by unfold Ctx.avail; omega
+  have hb0 := hg o
+  unfold macsecFromSlice macsecHeaderFromSlice
+  simp only [Spec.step, hav, hc, isVlanType]
+  simp only [show ¬ ((0x88e5 : Nat) = 0x8100 ∨ (0x88e5 : Nat) = 0x88a8 ∨ (0x88e5 : Nat) = 0x9100) by omega,
+    decide_false, Bool.false_eq_true, if_false, if_true, hn]
+  by_cases h6 : l < 6
+  · simp only [h6, if_true]
+    exact ⟨_, rfl, by lenrel⟩
+  · simp only [h6, if_false]
+    by_cases hv : g o / 128 % 2 = 1
+    · have hv' : g o / 128 = 1 := by omega
+      simp only [hv, hv', if_true]
+      exact ⟨_, rfl, by simp [mkFault], by simp [mkFault]⟩
+    · have hv' : ¬ g o / 128 = 1 := by omega
+      simp only [hv, hv', if_false]
+      have hsl : g (o + 1) % 64 < 64 := Nat.mod_lt _ (by omega)
+      generalize hslv : g (o + 1) % 64 = sl at *
+      by_cases hU : macsecUnmodified (g o) = true
+      · have hUs : (g o / 8 % 2 = 0 ∧ g o / 4 % 2 = 0) := (macsec_unmod_eq (g o)).mp hU
+        by_cases hS : macsecSciPresent (g o) = true
+        · have hSs : g o / 32 % 2 = 1 := by simpa [macsecSciPresent] using hS
+          simp only [macsecHeaderLen, secTagLen, macsecExpectedPayloadLen, macsecNextEtherType, hU, hS, hUs, hSs, hslv,
+                and_self, true_and, and_true, and_false, false_and, decide_true, decide_false, if_true, not_true_eq_false, not_false_eq_true, if_false,
+                Bool.false_eq_true]
+          by_cases h1 : sl = 1
+          · simp only [h1, if_true]
+            exact ⟨_, rfl, by simp [mkFault], by simp [mkFault]⟩
+          · simp only [h1, if_false]
+            by_cases hlt : l < 6 + 2 + 8
+            · have : l < 6 + 8 + 2 := by omega
+              simp only [hlt, this, if_true]
+              exact ⟨_, rfl, by lenrel⟩
+            · have : ¬ l < 6 + 8 + 2 := by omega
+              simp only [hlt, this, if_false]
+              by_cases h0 : sl = 0
+              · subst h0
+                have e1 : o + l - (o + 16) = l - 16 := by omega
+                simp [addExt_eq, hs, inherit, e1]
+                omega
+              · have hpos : 0 < sl := by omega
+                have h2 : ¬ sl < 2 := by omega
+                simp only [hpos, h0, h2, if_true, if_false]
+                by_cases hp : l < 6 + 2 + 8 + (sl - 2)
+                · have : l < 6 + 8 + 2 + (sl - 2) := by omega
+                  simp only [hp, this, if_true]
+                  refine ⟨_, rfl, ?_⟩
+                  refine ⟨by simp [mkFault], by simp [mkFault, LayerUnit], by simp [mkFault, *], by simp [mkFault, *],
+                    by simp [mkFault], ?_⟩
+                  right
+                  simp [KnownSrcException]
+                · have : ¬ l < 6 + 8 + 2 + (sl - 2) := by omega
+                  simp only [hp, this, if_false]
+                  simp [addExt_eq, inherit]
+                  try omega
+        · have hSs : ¬ g o / 32 % 2 = 1 := by simpa [macsecSciPresent] using hS
+          simp only [macsecHeaderLen, secTagLen, macsecExpectedPayloadLen, macsecNextEtherType, hU, hS, hUs, hSs, hslv,
+                and_self, true_and, and_true, and_false, false_and, decide_true, decide_false, if_true, not_true_eq_false, not_false_eq_true, if_false,
+                Bool.false_eq_true]
+          by_cases h1 : sl = 1
+          · simp only [h1, if_true]
+            exact ⟨_, rfl, by simp [mkFault], by simp [mkFault]⟩
+          · simp only [h1, if_false]
+            by_cases hlt : l < 6 + 2 + 0
+            · have : l < 6 + 0 + 2 := by omega
+              simp only [hlt, this, if_true]
+              exact ⟨_, rfl, by lenrel⟩
+            · have : ¬ l < 6 + 0 + 2 := by omega
+              simp only [hlt, this, if_false]
+              by_cases h0 : sl = 0
+              · subst h0
+                have e1 : o + l - (o + 8) = l - 8 := by omega
+                simp [addExt_eq, hs, inherit, e1]
+                omega
+              · have hpos : 0 < sl := by omega
+                have h2 : ¬ sl < 2 := by omega
+                simp only [hpos, h0, h2, if_true, if_false]
+                by_cases hp : l < 6 + 2 + 0 + (sl - 2)
+                · have : l < 6 + 0 + 2 + (sl - 2) := by omega
+                  simp only [hp, this, if_true]
+                  refine ⟨_, rfl, ?_⟩
+                  refine ⟨by simp [mkFault], by simp [mkFault, LayerUnit], by simp [mkFault, *], by simp [mkFault, *],
+                    by simp [mkFault], ?_⟩
+                  right
+                  simp [KnownSrcException]
+                · have : ¬ l < 6 + 0 + 2 + (sl - 2) := by omega
+                  simp only [hp, this, if_false]
+                  simp [addExt_eq, inherit]
+                  try omega
+      · have hUs : ¬ (g o / 8 % 2 = 0 ∧ g o / 4 % 2 = 0) := fun h => hU ((macsec_unmod_eq (g o)).mpr h)
+        by_cases hS : macsecSciPresent (g o) = true
+        · have hSs : g o / 32 % 2 = 1 := by simpa [macsecSciPresent] using hS
+          simp only [macsecHeaderLen, secTagLen, macsecExpectedPayloadLen, macsecNextEtherType, hU, hS, hUs, hSs, hslv,
+                and_self, true_and, and_true, and_false, false_and, decide_true, decide_false, if_true, not_true_eq_false, not_false_eq_true, if_false,
+                Bool.false_eq_true]
+          by_cases hlt : l < 6 + 0 + 8
+          · have : l < 6 + 8 + 0 := by omega
+            simp only [hlt, this, if_true]
+            exact ⟨_, rfl, by lenrel⟩
+          · have : ¬ l < 6 + 8 + 0 := by omega
+            simp only [hlt, this, if_false]
+            by_cases h0 : sl = 0
+            · subst h0
+              have e1 : o + l - (o + 14) = l - 14 := by omega
+              simp [addExt_eq, hs, inherit, e1]
+              omega
+            · have hpos : 0 < sl := by omega
+              simp only [hpos, h0, if_true, if_false]
+              by_cases hp : l < 6 + 0 + 8 + sl
+              · have : l < 6 + 8 + 0 + sl := by omega
+                simp only [hp, this, if_true]
+                refine ⟨_, rfl, ?_⟩
+                refine ⟨by simp [mkFault], by simp [mkFault, LayerUnit], by simp [mkFault, *], by simp [mkFault, *],
+                  by simp [mkFault], ?_⟩
+                right
+                simp [KnownSrcException]
+              · have : ¬ l < 6 + 8 + 0 + sl := by omega
+                simp only [hp, this, if_false]
+                simp [addExt_eq, inherit]
+                try omega
+        · have hSs : ¬ g o / 32 % 2 = 1 := by simpa [macsecSciPresent] using hS
+          simp only [macsecHeaderLen, secTagLen, macsecExpectedPayloadLen, macsecNextEtherType, hU, hS, hUs, hSs, hslv,
+                and_self, true_and, and_true, and_false, false_and, decide_true, decide_false, if_true, not_true_eq_false, not_false_eq_true, if_false,
+                Bool.false_eq_true]
+          by_cases hlt : l < 6 + 0 + 0
+          · have : l < 6 + 0 + 0 := by omega
+            simp only [hlt, this, if_true]
+            exact ⟨_, rfl, by lenrel⟩
+          · have : ¬ l < 6 + 0 + 0 := by omega
+            simp only [hlt, this, if_false]
+            by_cases h0 : sl = 0
+            · subst h0
+              have e1 : o + l - (o + 6) = l - 6 := by omega
+              simp [addExt_eq, hs, inherit, e1]
+              omega
+            · have hpos : 0 < sl := by omega
+              simp only [hpos, h0, if_true, if_false]
+              by_cases hp : l < 6 + 0 + 0 + sl
+              · have : l < 6 + 0 + 0 + sl := by omega
+                simp only [hp, this, if_true]
+                refine ⟨_, rfl, ?_⟩
+                refine ⟨by simp [mkFault], by simp [mkFault, LayerUnit], by simp [mkFault, *], by simp [mkFault, *],
+                  by simp [mkFault], ?_⟩
+                right
+                simp [KnownSrcException]
+              · have : ¬ l < 6 + 0 + 0 + sl := by omega
+                simp only [hp, this, if_false]
+                simp [addExt_eq, inherit]
+                try omega
 
 
 end EpModel.Lemmas.Refine
